@@ -1,5 +1,7 @@
 import F1Verif.Drive.Verdict
 import F1Verif.Drive.Distribution
+import F1Verif.Drive.Progress
+import F1Verif.Drive.Handle
 /-!
 Line-protocol driver (`f1model`). One case per line on stdin:
 
@@ -14,6 +16,13 @@ def dispatch (op : String) : Option (List String → List String → Option (Str
   match op with
   | "verdict" => some verdict
   | "dist" => some dist
+  | "scn" => some scn
+  | "scn2" => some scn2
+  | "scn.measure" => some scnMeasure
+  | "scn.counts" => some scnCounts
+  | "progress.seq" => some progressSeq
+  | "progress.script" => some progressScript
+  | "progress.stress" => some progressStress
   | "distsum" => some distsum
   | _ => none
 
